@@ -20,6 +20,7 @@ ACCESSORS = {
     "into_iter", "next", "unwrap", "expect", "last_mut", "first_mut", "borrow_mut", "by_ref", "as_mut_ptr",
     "get_or_insert_with", "unwrap_or_else", "map", "and_then", "ok_or", "index_mut", "peekable", "peek_mut",
     "enumerate", "zip", "rev", "skip", "take", "filter", "chain", "flatten", "filter_map", "flat_map",
+    "split_first_mut", "split_last_mut", "split_at_mut", "as_deref", "iter", "last", "first",
 }
 # foreign callees that take `&mut X` and certainly do not modify X's logical content
 READONLY_MUT = {"len", "is_empty", "get", "contains", "contains_key", "iter", "clone", "as_ref", "as_slice", "as_str", "fmt"}
@@ -50,15 +51,30 @@ class Effects:
         taint = defaultdict(set)  # local -> {(adt, field)} it mutably aliases
         closure_field_alias = {}
 
+        field_taint = defaultdict(set)  # (adt, field) of a container -> aliases stored in it
+
         def place_taint(place):
-            """fields a (mutable) use of this place touches: its own chain + taint of the base
-            when going through a deref"""
+            """fields a mutable use of this place touches: its own chain, the aliases held by the
+            base local when going through a deref, and aliases stored in the fields it reads"""
             l, projs = place
-            t = set(place_field_chain(place))
-            if "*" in projs or projs:
+            chain = place_field_chain(place)
+            t = set(chain)
+            if projs and projs[0] == "*" or not projs:
                 t |= taint.get(l, set())
-            else:
+            # aliases stored in a field are reached only by dereferencing *after* that field
+            for i, p in enumerate(projs):
+                if isinstance(p, list) and p[0] == "f" and len(p) > 3 and "*" in projs[i + 1:]:
+                    t |= field_taint.get((p[3], p[2]), set())
+            return t
+
+        def read_taint(place):
+            l, projs = place
+            chain = place_field_chain(place)
+            t = set()
+            if not projs:
                 t |= taint.get(l, set())
+            for fld in chain:
+                t |= field_taint.get(fld, set())
             return t
 
         # fixpoint over aliases (flow-insensitive)
@@ -77,23 +93,30 @@ class Effects:
                     new = set()
                     if r["k"] in ("ref", "rawptr") and r.get("mut"):
                         new = place_taint(r["p"])
-                    elif r["k"] == "use":
+                    elif r["k"] in ("use", "cast"):
                         p = op_place(r["o"])
                         if p is not None:
-                            ty = fn.local_ty(p[0])
-                            new = set(taint.get(p[0], set()))
-                    elif r["k"] == "cast":
-                        p = op_place(r["o"])
-                        if p is not None:
-                            new = set(taint.get(p[0], set()))
+                            new = read_taint(p)
                     elif r["k"] == "agg":
                         for o in r["fields"]:
                             p = op_place(o)
                             if p is not None:
-                                new |= taint.get(p[0], set())
-                    if new and not new <= taint[l]:
-                        taint[l] |= new
-                        changed = True
+                                new |= read_taint(p)
+                    if not new:
+                        continue
+                    if not projs:
+                        if not new <= taint[l]:
+                            taint[l] |= new
+                            changed = True
+                    else:
+                        # an alias stored into a field of some structure: remember it by field
+                        chain = place_field_chain(st["p"])
+                        if chain:
+                            if not new <= field_taint[chain[-1]]:
+                                field_taint[chain[-1]] |= new
+                                changed = True
+                        # `*p = value holding aliases`: the aliases now live in p's pointee, p itself
+                        # does not become an alias of them (pointer levels are kept apart)
                 t = b["term"]
                 if t["k"] == "call" and "f" in t:
                     cal = Callee(t["f"])
@@ -101,12 +124,18 @@ class Effects:
                     for a in t["args"]:
                         p = op_place(a)
                         if p is not None:
-                            argt |= taint.get(p[0], set())
+                            argt |= read_taint(p)
                     if argt and (cal.name in ACCESSORS) and not cal.local:
-                        l = t["dest"][0]
-                        if not argt <= taint[l]:
-                            taint[l] |= argt
-                            changed = True
+                        l, projs = t["dest"]
+                        if not projs:
+                            if not argt <= taint[l]:
+                                taint[l] |= argt
+                                changed = True
+                        else:
+                            chain = place_field_chain(t["dest"])
+                            if chain and not argt <= field_taint[chain[-1]]:
+                                field_taint[chain[-1]] |= argt
+                                changed = True
         self.taint = taint
         # collect reads / writes
         for bi in fn.normal_blocks():
@@ -118,7 +147,7 @@ class Effects:
                     chain = place_field_chain(st["p"])
                     for fld in chain:
                         self._w(fld, "assign", line)
-                    if "*" in projs or (projs and taint.get(l)):
+                    if projs and projs[0] == "*":
                         for fld in taint.get(l, ()):
                             self._w(fld, "assign-through-alias", line)
                     r = st["r"]
@@ -133,7 +162,7 @@ class Effects:
                 line = span_line(t["s"])
                 for fld in place_field_chain(t["dest"]):
                     self._w(fld, "call-dest", line)
-                if t["dest"][1] and ("*" in t["dest"][1]):
+                if t["dest"][1] and t["dest"][1][0] == "*":
                     for fld in taint.get(t["dest"][0], ()):
                         self._w(fld, "call-dest-through-alias", line)
                 for a in t["args"]:
